@@ -21,6 +21,7 @@ var knownP = ev.Matcher[PCase]{}
 
 const rule = "(a) repetition: for MySQL/PostgreSQL/SQLite the plans (create all, modify by 0-6 catalogue edits, drop all; Cmd and reverse statements), DefaultFormatter files (fixed Version), the MemDir sum file and MarshalHCL bytes of the same inputs are computed 21 times in one process " +
 	"(Go re-randomises map iteration on every range) and in 3 fresh child processes of the test binary; CLI: `schema inspect` (HCL and sql), `schema diff` and `migrate hash` 5 times each in fresh processes: all bytes identical. " +
+	"History: MySQL cases write column character sets the short way on the desired side (CHARSET only / COLLATE only, resolved through lazily loaded driver tables), so the bytes computed after other cases in the same process are compared with processes that have no history. " +
 	"(c) schedules: the same case 4x plus 4 unrelated cases run concurrently in goroutines under the race detector (the check is built with -race); results must equal the sequential ones and the detector must stay silent. " +
 	"(b) permutation: tables and enum types listed in another order (API, all dialects) and the inspected HCL's top-level blocks permuted and spread over 1-3 files (SQLite, evaluated and applied on a real engine): the multiset of planned statements is identical and the resulting databases have equal catalogs. " +
 	"non-trivial = >=2 tables with FKs / >=2 enum types / >=2 files in play and a plan with >=2 statements; distinct key = (operation, dialect, edit kinds, plan mode, permuted?)"
@@ -49,6 +50,9 @@ func genCase(t *rapid.T) Case {
 	}
 	if rapid.Bool().Draw(t, "permute") {
 		c.Perm = int64(rapid.IntRange(1, 1<<30).Draw(t, "perm"))
+	}
+	if d == "mysql" {
+		c.Short = rapid.IntRange(0, 3).Draw(t, "short")
 	}
 	return c
 }
@@ -98,6 +102,14 @@ func TestCheck(t *testing.T) {
 	col := ev.New("C20", "exploration", rule)
 	defer col.Finish()
 	var pool []Case
+	{
+		// history independence: column character sets written the short way are resolved through driver tables that are
+		// loaded lazily, once per driver; a case that needs one table runs after a case that needed the other, and both
+		// are compared with fresh processes that have no history
+		sites := c02.Sites("mysql", c02.Base("mysql"))
+		pool = append(pool, Case{Dialect: "mysql", Short: 2, Edits: []c02.EditRef{sites[1].E}}, Case{Dialect: "mysql", Short: 1, Edits: []c02.EditRef{sites[1].E}},
+			Case{Dialect: "mysql", Short: 3, Edits: []c02.EditRef{sites[2].E}})
+	}
 	for _, d := range []string{"mysql", "postgres", "sqlite"} {
 		sites := c02.Sites(d, c02.Base(d))
 		pool = append(pool, Case{Dialect: d}, Case{Dialect: d, Edits: []c02.EditRef{sites[1].E, sites[len(sites)/2].E}, Mode: 2})
@@ -116,11 +128,11 @@ func TestCheck(t *testing.T) {
 		sort.Strings(ks)
 		col.Class(c.Dialect + "/api")
 		if out.Stmts >= 2 {
-			col.NonTrivial(fmt.Sprintf("api|%s|%s|%d|%v", c.Dialect, strings.Join(ks, ","), c.Mode, c.Perm != 0))
+			col.NonTrivial(fmt.Sprintf("api|%s|%s|%d|%v|%d", c.Dialect, strings.Join(ks, ","), c.Mode, c.Perm != 0, c.Short))
 		}
 		col.Sample(c.Dialect+"/api", c)
 		// multi-process: a sample of cases is re-rendered in 3 fresh processes
-		if nchild < col.N(6, 300) && len(c.Edits) > 0 {
+		if nchild < col.N(8, 300) && len(c.Edits) > 0 {
 			nchild++
 			ref, err := Render(c, 0)
 			if err != nil {
